@@ -33,7 +33,7 @@ OPS = ['store'] * 4 + ['multi'] * 2 + ['undo'] * 2 + ['delete', 'restore', 'reop
 
 
 def shards(tier, seed):
-    return split(tier, seed, 480, 4800, 40, 900)
+    return split(tier, seed, 1200, 48000, 40, 900)
 
 
 def dir_fingerprint(d):
